@@ -58,8 +58,8 @@ def run(res, tier, seed, replay):
             dirs.append(d)
         aids = [bytes(r.randrange(256) for _ in range(15)) for _ in paths]
         base = {"literals": False, "tiny": False, "ctrlflow": False, "seed": b"", "gogarble": "*", "binary_id": bytes(r.randrange(256) for _ in range(15))}
-        seedA = bytes(r.randrange(256) for _ in range(8))
-        seedB = bytes(r.randrange(256) for _ in range(8))
+        seedA = bytes(r.randrange(256) for _ in range(r.choice([8, 9, 15, 20])))   # garble accepts longer seeds and hashes every byte
+        seedB = seedA[:-1] + bytes([seedA[-1] ^ 0x41])   # differs from seedA in its last byte only
         variants = [("base", dict(base), aids)]
         for k in ("literals", "tiny", "ctrlflow"):
             v = dict(base); v[k] = True
